@@ -43,6 +43,7 @@ struct Cx<'tcx> {
     tcx: TyCtxt<'tcx>,
     out: String,
     owner: Option<LocalDefId>,
+    promoted_consts: Vec<String>,
 }
 
 impl<'tcx> Cx<'tcx> {
@@ -200,6 +201,16 @@ impl<'tcx> Cx<'tcx> {
                                 let bits = si.to_bits_unchecked();
                                 let _ = write!(self.out, ",\"v\":\"{}\"", bits);
                             }
+                        }
+                    }
+                }
+                // value behind a promoted constant (e.g. `&"Incomplete"`): first literal of the promoted body
+                if let Const::Unevaluated(uv, _) = c.const_ {
+                    if let Some(pi) = uv.promoted {
+                        if let Some(v) = self.promoted_consts.get(pi.as_usize()) {
+                            self.out.push_str(",\"pv\":");
+                            let v = v.clone();
+                            esc(&v, &mut self.out);
                         }
                     }
                 }
@@ -693,7 +704,7 @@ impl Callbacks for Cb {
         if crate_name.starts_with("build_script") {
             return Compilation::Continue;
         }
-        let mut cx = Cx { tcx, out: String::with_capacity(64 << 20), owner: None };
+        let mut cx = Cx { tcx, out: String::with_capacity(64 << 20), owner: None, promoted_consts: Vec::new() };
         cx.out.push('{');
         cx.kv_s("crate", &crate_name);
         cx.out.push(',');
@@ -708,8 +719,26 @@ impl Callbacks for Cb {
             if !matches!(tcx.def_kind(did), DefKind::Fn | DefKind::AssocFn | DefKind::Closure) {
                 continue;
             }
-            let (body_steal, _) = tcx.mir_promoted(def);
+            let (body_steal, promoted_steal) = tcx.mir_promoted(def);
             let body = body_steal.borrow();
+            {
+                let promoted = promoted_steal.borrow();
+                cx.promoted_consts.clear();
+                for pb in promoted.iter() {
+                    let mut found = String::new();
+                    'outer: for bb in pb.basic_blocks.iter() {
+                        for st in bb.statements.iter() {
+                            if let StatementKind::Assign(b) = &st.kind {
+                                if let Rvalue::Use(Operand::Constant(k), ..) = &b.1 {
+                                    found = with_no_trimmed_paths!(format!("{}", k.const_));
+                                    break 'outer;
+                                }
+                            }
+                        }
+                    }
+                    cx.promoted_consts.push(found);
+                }
+            }
             if n > 0 {
                 cx.out.push(',');
             }
